@@ -72,6 +72,60 @@ use crate::{
 pub mod downlink;
 mod init;
 mod io;
+
+/// Trace of the agent task's write bookkeeping for the external verification harness (feature `verif`).
+#[cfg(feature = "verif")]
+pub mod verif_trace {
+    use std::cell::RefCell;
+
+    /// What the item did when it was asked to write.
+    #[derive(Debug, Clone, Copy, PartialEq, Eq)]
+    pub enum PassOutcome {
+        NoWriter,
+        Done,
+        RequiresEvent,
+        DataStillAvailable,
+        NoData,
+    }
+
+    #[derive(Debug, Clone, PartialEq, Eq)]
+    pub enum LoopEvent {
+        /// The task took an event: a completed write of an item, or anything else.
+        Event { write_complete: Option<u64> },
+        /// The items flagged as changed when the pass over them begins.
+        Dirty(Vec<u64>),
+        /// The pass: each flagged item, in the order visited, with what happened.
+        Pass(Vec<(u64, PassOutcome)>),
+        /// The bookkeeping after the pass: items still flagged, items whose writer is at hand, writes in flight.
+        After {
+            dirty: Vec<u64>,
+            writers: Vec<u64>,
+            pending: usize,
+        },
+    }
+
+    thread_local! {
+        static LOG: RefCell<Option<Vec<LoopEvent>>> = const { RefCell::new(None) };
+    }
+
+    /// Start recording on this thread.
+    pub fn start() {
+        LOG.with(|l| *l.borrow_mut() = Some(vec![]));
+    }
+
+    /// Stop recording and return what was recorded.
+    pub fn take() -> Vec<LoopEvent> {
+        LOG.with(|l| l.borrow_mut().take().unwrap_or_default())
+    }
+
+    pub(super) fn record(e: LoopEvent) {
+        LOG.with(|l| {
+            if let Some(log) = l.borrow_mut().as_mut() {
+                log.push(e);
+            }
+        });
+    }
+}
 #[cfg(test)]
 mod tests;
 
@@ -1223,6 +1277,13 @@ where
                     }
                 }
             };
+            #[cfg(feature = "verif")]
+            verif_trace::record(verif_trace::LoopEvent::Event {
+                write_complete: match &task_event {
+                    TaskEvent::WriteComplete { writer, .. } => Some(writer.lane_id()),
+                    _ => None,
+                },
+            });
             let add_downlink = |request: DownlinkSpawnRequest<ItemModel>| {
                 let fut = open_new_downlink(
                     &*context,
@@ -1551,33 +1612,63 @@ where
                     break Err(AgentTaskError::OutputFailed(err));
                 }
             }
+            #[cfg(feature = "verif")]
+            let mut verif_pass: Vec<(u64, verif_trace::PassOutcome)> = {
+                let mut flagged: Vec<u64> = dirty_items.iter().copied().collect();
+                flagged.sort_unstable();
+                verif_trace::record(verif_trace::LoopEvent::Dirty(flagged));
+                vec![]
+            };
             // Attempt to write to the outgoing buffers for any items with data.
             dirty_items.retain(|id| {
                 if let Some(mut tx) = item_writers.remove(id) {
                     let name = &external_item_ids_rev[id];
                     match item_model.write_event(name.as_str(), &mut tx.buffer) {
                         Some(WriteResult::Done) => {
+                            #[cfg(feature = "verif")]
+                            verif_pass.push((*id, verif_trace::PassOutcome::Done));
                             pending_writes.push(do_write(tx, false));
                             false
                         }
                         Some(WriteResult::RequiresEvent) => {
+                            #[cfg(feature = "verif")]
+                            verif_pass.push((*id, verif_trace::PassOutcome::RequiresEvent));
                             pending_writes.push(do_write(tx, true));
                             false
                         }
                         Some(WriteResult::DataStillAvailable) => {
+                            #[cfg(feature = "verif")]
+                            verif_pass.push((*id, verif_trace::PassOutcome::DataStillAvailable));
                             pending_writes.push(do_write(tx, false));
                             true
                         }
                         _ => {
+                            #[cfg(feature = "verif")]
+                            verif_pass.push((*id, verif_trace::PassOutcome::NoData));
                             // Nothing was written: the writer is still needed for later events.
                             item_writers.insert(*id, tx);
                             false
                         }
                     }
                 } else {
+                    #[cfg(feature = "verif")]
+                    verif_pass.push((*id, verif_trace::PassOutcome::NoWriter));
                     true
                 }
             });
+            #[cfg(feature = "verif")]
+            {
+                verif_trace::record(verif_trace::LoopEvent::Pass(std::mem::take(&mut verif_pass)));
+                let mut dirty: Vec<u64> = dirty_items.iter().copied().collect();
+                dirty.sort_unstable();
+                let mut writers: Vec<u64> = item_writers.keys().copied().collect();
+                writers.sort_unstable();
+                verif_trace::record(verif_trace::LoopEvent::After {
+                    dirty,
+                    writers,
+                    pending: pending_writes.len(),
+                });
+            }
         }?;
         // Try to run the `on_stop` handler before we stop.
         let on_stop_handler = lifecycle.on_stop();
